@@ -702,7 +702,7 @@ func returnsSentinel(b *ssa.BasicBlock) (string, bool) {
 	for d := 0; d < 3 && b != nil; d++ {
 		for _, ins := range b.Instrs {
 			if ret, ok := ins.(*ssa.Return); ok {
-				for _, res := range ret.Results {
+				for _, res := range retResults(ret) {
 					if name := sentinelName(res); name != "" {
 						return name, true
 					}
